@@ -260,6 +260,9 @@ func Adopt(cfg Cfg, disk *simdisk.Disk, m State) *Env {
 	return e
 }
 
+// OpenWith opens the disk with explicit options.
+func (e *Env) OpenWith(o txfile.Options) error { return e.open(o) }
+
 // Open opens the adopted disk.
 func (e *Env) Open() error { return e.open(e.Opts) }
 
